@@ -85,6 +85,22 @@ def run(ctx):
     fs = [n for n in ast.walk(sf) if isinstance(n, ast.Assign) and src(n.targets[0]) == "file_stages"]
     ok = len(fs) == 1 and "iter_nested_value(outputs)" in src(fs[0].value) and "isinstance(value, Staging)" in src(fs[0].value) and "in file_stages" in tt.get("unstage", "")
     r2.check(ok, f"{m.rel}:script:unstage-all-outputs", "not every Staging leaf of outputs is unstaged", m.rel, sf.lineno)
+    # multiplicity: the staging/unstaging commands are one per Staging leaf.  Walk back from the argument of command_parts.extend(...) to
+    # iter_nested_value(<spec>): only sequence-preserving steps (list/generator comprehension, single-assignment names, list()) may occur;
+    # a dict/set keyed by part of the leaf (its local path, say) merges leaves that differ elsewhere (two remotes fed from one local file).
+    for kind, spec in (("stage", "inputs"), ("unstage", "outputs")):
+        call = next((n for n in ast.walk(sf) if isinstance(n, ast.Call) and call_name(n) in ("command_parts.append", "command_parts.extend") and f"render_{kind}" in src(n)), None)
+        if call is None:
+            continue
+        why = _collapsing_step(sf, call.args[0], spec, set())
+        r2.check(
+            why is None,
+            f"{m.rel}:script:{kind}-per-leaf",
+            f"the {kind} commands are not one per Staging leaf of `{spec}`: {why}; leaves that agree on that part but differ otherwise (e.g. one local file copied to two remote paths) get a single "
+            "command, and the task returns a remote file that was never written",
+            m.rel,
+            call.lineno,
+        )
     ok = 'full_command = "\\n".join(command_parts)'.replace('"', "'") in src(sf)
     r2.check(ok, f"{m.rel}:script:join", "the parts are not joined by newlines in order", m.rel, sf.lineno)
 
@@ -111,3 +127,40 @@ def run(ctx):
     t = src(pc)
     ok = ok and "command = dedent(command).strip()" in t and t.rstrip().endswith("return command")
     r4.check(ok, f"{m.rel}:prepare_command", "the default shell is not prepended exactly when the dedented text lacks a shebang", m.rel, pc.lineno)
+
+
+def _collapsing_step(fn, e, spec, seen):
+    """None when `e` enumerates the Staging leaves of iter_nested_value(<spec>) one by one; otherwise a description of the step that can merge leaves."""
+    if isinstance(e, ast.Call) and call_name(e) == "iter_nested_value":
+        return None if e.args and src(e.args[0]) == spec else f"`{src(e)}` does not enumerate `{spec}`"
+    if isinstance(e, (ast.ListComp, ast.GeneratorExp)):
+        if len(e.generators) != 1:
+            return f"`{src(e)[:70]}` (unknown comprehension shape)"
+        g = e.generators[0]
+        for i in g.ifs:
+            if not (isinstance(i, ast.Call) and call_name(i) == "isinstance" and src(i.args[1]) == "Staging"):
+                return f"`if {src(i)}` drops leaves"
+        return _collapsing_step(fn, g.iter, spec, seen)
+    if isinstance(e, ast.Call) and isinstance(e.func, ast.Name) and e.func.id in ("list", "tuple", "iter") and len(e.args) == 1:
+        return _collapsing_step(fn, e.args[0], spec, seen)
+    if isinstance(e, ast.Name):
+        if e.id in seen:
+            return f"`{e.id}` is defined cyclically"
+        defs = [n for n in ast.walk(fn) if isinstance(n, ast.Assign) and any(isinstance(t, ast.Name) and t.id == e.id for t in n.targets)]
+        if len(defs) != 1:
+            return f"`{e.id}` is assigned {len(defs)} times"
+        return _collapsing_step(fn, defs[0].value, spec, seen | {e.id})
+    if isinstance(e, ast.Call) and isinstance(e.func, ast.Attribute) and e.func.attr in ("values", "keys", "items") and not e.args:
+        return _collapsing_step(fn, e.func.value, spec, seen)
+    if isinstance(e, (ast.DictComp, ast.SetComp)):
+        key = e.key if isinstance(e, ast.DictComp) else e.elt
+        var = src(e.generators[0].target)
+        kt = src(key)
+        whole = kt == var or (f"{var}.local" in kt and f"{var}.remote" in kt)
+        if whole:
+            inner = ast.ListComp(elt=e.generators[0].target, generators=e.generators)
+            return _collapsing_step(fn, ast.copy_location(inner, e), spec, seen)
+        return f"`{src(e)[:90]}` keys the leaves by `{kt}` only"
+    if isinstance(e, ast.Call) and isinstance(e.func, ast.Name) and e.func.id in ("set", "frozenset", "dict"):
+        return f"`{src(e)[:70]}` collapses equal elements"
+    return f"`{src(e)[:70]}` is not a recognised per-leaf enumeration"
